@@ -788,7 +788,20 @@ def local_env_block(stmts):
     return env
 
 
+def r01g(ctx):
+    """the endpoints a tracer reports are its own: constructors copy the endpoint arguments (= R06e), so cached solutions keep joining the
+    endpoints the object reports even if the caller later edits its arrays in place"""
+    from . import c06
+    ctx.rule("R01g", "gradient tracers keep private copies of their endpoints (= R06e)", expected=2, kind="N")
+    sub = type(ctx)(ctx.repo, ctx.prop, ctx.tier)
+    c06.r06e(sub, [ctx.repo.cls(BT), ctx.repo.cls(ST)])
+    for o in sub.obs:
+        o.rule = "R01g"
+        ctx.obs.append(o)
+
+
 def run(ctx):
+    ctx.guard(r01g)
     ctx.guard(r01f)
     ctx.guard(r01a)
     ctx.guard(r01b)
